@@ -2,3 +2,4 @@
 import CoolerModel.Props.C07Core
 import CoolerModel.Props.C07Break
 import CoolerModel.Props.C07Agg
+import CoolerModel.Props.C07Compat
